@@ -36,7 +36,10 @@ TEXT = gen_model.profile(style_density=(0, 2), max_nodes=36, fanout=3, br_styles
                          exotic_numbers=False, edges=False, preserve=False, timed_regions=False, body_divs=(1, 5), time_density=8,
                          time_shifts=[Fraction(0), Fraction(0), Fraction(0), Fraction(59), Fraction(3599), Fraction(86399), Fraction(359990)])
 TEXT_PRESERVE = gen_model.profile(**dict(TEXT, preserve=True, max_nodes=24))
-SUBMS = gen_model.profile(**dict(TEXT, arbitrary_times=True, max_nodes=14, time_density=3, time_shifts=None))
+# (body begins just below a minute / an hour in some documents: rounding to the millisecond carries into the minute / hour field)
+SUBMS = gen_model.profile(**dict(TEXT, arbitrary_times=True, max_nodes=14, time_density=3,
+                                 time_shifts=[Fraction(0), Fraction(0), Fraction(0), 60 - Fraction(1, 3000), 3600 - Fraction(1, 4000),
+                                              120 - Fraction(9, 20000)]))
 # text containing the characters that WebVTT must escape (SubRip has no escaping: WebVTT configurations only)
 MARKUP = gen_model.profile(**dict(TEXT, text_markup=True, max_nodes=16, ruby=False, time_shifts=None))
 # text with characters outside ASCII, among them the ones Unicode calls line boundaries (U+2028, U+0085 ...) but TTML / SubRip / WebVTT do not
